@@ -25,8 +25,15 @@ def cases(tier, seed):
                 cs.append({'scen': 'save_load_cores', 's': dict(s, sliced=True)})
                 if M:
                     cs.append({'scen': 'save_load_cores', 's': dict(s, transposed=True)})
-            for op in ('clone', 'detach', 'cpu', 'to_same', 'numpy'):
+            for op in ('clone', 'detach', 'cpu', 'to_same', 'numpy', 'to_noargs', 'to_devonly'):
                 cs.append({'scen': 'copies', 's': dict(s, op=op)})
+            cs.append({'scen': 'copies', 's': dict(s, op='to_devonly', form='devobj')})
+            other = {'float64': 'float32', 'float32': 'float64', 'complex128': 'complex64', 'complex64': 'complex128'}[dt]
+            for form in ('dev_dtype_kw', 'dev_dtype_pos', 'devobj_dtype', 'none_dtype'):
+                cs.append({'scen': 'copies', 's': dict(s, op='to_other', to=other, form=form)})
+            for cj in (True, 'twice', 'sliced'):
+                if dt.startswith('complex') or cj is True:
+                    cs.append({'scen': 'save_load_cores', 's': dict(s, conj=cj)})
             if dt == 'float64':
                 for pre in ('offset', 'strided'):
                     cs.append({'scen': 'copies', 's': dict(s, op='clone', presliced=pre)})
